@@ -3,6 +3,7 @@ Family Download: mechanism model of the shared job list / per-height workers / r
 bound to the real download protocol on real libp2p hosts through the gates of hook H7b."""
 import json
 import os
+import re
 
 FAMILY = 'Download'
 DRIVER = 'download'
@@ -166,8 +167,14 @@ def run(ctx):
     ctx.tlc_mc('Download_MC', 'Download_Live.cfg', workers=2, timeout=T)
     if not q:
         r = ctx.tlc_mc('Download_MC', 'Download_MCt.cfg', workers=6, timeout=4 * T, coverage=True)
-        if r.get('zero_actions'):
-            raise vlib.Broken('actions never taken in Download_MCt: %s' % r['zero_actions'])
+        # -coverage 1 prints a snapshot every minute: only the last figure of each action counts
+        last = {}
+        for m in re.finditer(r'^<(\w+) line [^>]*>: (\d+):(\d+)\s*$', r['out'], re.M):
+            last[m.group(1)] = (int(m.group(2)), int(m.group(3)))
+        never = sorted(a for a, (d, g) in last.items() if g == 0)
+        if never or not last:
+            raise vlib.Broken('actions never taken in Download_MCt: %s' % (never or 'no coverage output'))
+        ctx.extra['action_coverage_MCt'] = {a: g for a, (d, g) in last.items()}
     # 2. the pre-fix mechanisms are refuted in the same model (the model can see the defects); the
     #    counterexamples are candidates that are replayed on the real code below
     cands = []
@@ -217,9 +224,14 @@ def run(ctx):
     #    reached and the remaining heights have run out of retries; those must come back through the re-download pass
     _scenarios(ctx, b)
     # 5. binding B: free-running recordings validated by the trace specification
-    r, s = ctx.validate_recording(b, 'Download_Trace', 'Download_Trace.cfg', dfs=True, timeout=2 * T,
-                                  opts=dict(n=15 if q else 120, peers=4, heights=4 if q else 5, stuck_ms=60000))
+    r, s = ctx.validate_recording(b, 'Download_Trace', 'Download_Trace.cfg', dfs=True, timeout=4 * T,
+                                  opts=dict(n=15 if q else 60, peers=4, heights=4, stuck_ms=60000))
     ctx.extra['recorded'] = s.get('counters')
+    if not q:
+        # (trace validation explores every interleaving of the silent steps: ~1e3-1e5 states per recorded task)
+        r5, s5 = ctx.validate_recording(b, 'Download_Trace', 'Download_Trace.cfg', dfs=True, timeout=4 * T,
+                                        opts=dict(n=20, peers=3, heights=5, stuck_ms=60000, salt=5))
+        ctx.extra['recorded_5_heights'] = s5.get('counters')
     ctx.notes.append('informational (stronger reading of "within the same task"): %d requests went to a peer that had already '
                      'failed that height earlier in the same task (re-download pass), out of %d requests in %d recorded tasks'
                      % ((s.get('counters') or {}).get('reask_same_task_informational', 0), (s.get('counters') or {}).get('asks', 0),
